@@ -176,6 +176,8 @@ struct Lifter<'a> {
     /// the `&mut` parameter returned by a `()` function, if any
     out_param: Option<String>,
     observe: Option<String>,
+    /// > 0 while lifting a block in value position (closure bodies, branch values)
+    in_value: usize,
 }
 
 fn is_num(t: &str) -> bool {
@@ -359,6 +361,11 @@ impl<'a> Lifter<'a> {
                     segs[0] = self.self_ty.clone().ok_or("Self outside impl")?;
                 }
                 if segs.len() >= 2 {
+                    if let Some(t) = self.reg.types.get(&segs[0]) {
+                        if t.starts_with("L_") {
+                            segs[0] = t.clone();
+                        }
+                    }
                     let ty = segs[segs.len() - 2].clone();
                     return Ok(v(segs.join("::"), &ty));
                 }
@@ -563,6 +570,13 @@ impl<'a> Lifter<'a> {
                 if segs[0] == "Self" {
                     segs[0] = self.self_ty.clone().ok_or("Self outside impl")?;
                 }
+                if segs.len() >= 2 {
+                    if let Some(t) = self.reg.types.get(&segs[0]) {
+                        if t.starts_with("L_") {
+                            segs[0] = t.clone();
+                        }
+                    }
+                }
                 let last = segs.last().unwrap().clone();
                 let inner_tys: Vec<String> = match last.as_str() {
                     "Some" => vec![ty.strip_prefix("Option<").map(|s| s[..s.len() - 1].to_string()).unwrap_or("?".into())],
@@ -587,6 +601,13 @@ impl<'a> Lifter<'a> {
                 let mut segs: Vec<String> = pp.path.segments.iter().map(|s| s.ident.to_string()).collect();
                 if segs[0] == "Self" {
                     segs[0] = self.self_ty.clone().ok_or("Self outside impl")?;
+                }
+                if segs.len() >= 2 {
+                    if let Some(t) = self.reg.types.get(&segs[0]) {
+                        if t.starts_with("L_") {
+                            segs[0] = t.clone();
+                        }
+                    }
                 }
                 Ok(segs.join("::"))
             }
@@ -663,7 +684,9 @@ impl<'a> Lifter<'a> {
 
     fn block_scoped(&mut self, b: &syn::Block) -> R<Val> {
         self.env.push(HashMap::new());
+        self.in_value += 1;
         let r = self.stmts_with_cont(&b.stmts, None);
+        self.in_value -= 1;
         self.env.pop();
         r
     }
@@ -726,8 +749,8 @@ impl<'a> Lifter<'a> {
         let Some((first, rest)) = stmts.split_first() else {
             return match cont {
                 Some(k) => k(self),
-                None => match &self.out_param {
-                    Some(p) => {
+                None => match self.out_param.clone().filter(|_| self.in_value == 0) {
+                    Some(ref p) => {
                         let t = self.lookup(p).unwrap_or("?".into());
                         Ok(v(p.clone(), &t))
                     }
@@ -779,12 +802,12 @@ impl<'a> Lifter<'a> {
                         let inner = r.expr.as_ref().ok_or("return without value")?;
                         return self.expr(inner);
                     }
-                    if let syn::Expr::Match(m) = e {
-                        return self.match_expr(m, None);
-                    }
-                    if self.out_param.is_some() {
+                    if self.out_param.is_some() && self.in_value == 0 {
                         // `()` function mutating its &mut parameter: the tail is a statement
                         return self.effect_stmt(e, rest, cont);
+                    }
+                    if let syn::Expr::Match(m) = e {
+                        return self.match_expr(m, None);
                     }
                     return self.expr(e);
                 }
@@ -1109,8 +1132,13 @@ impl<'a> Lifter<'a> {
             if segs[0] == "Self" {
                 segs[0] = self.self_ty.clone().ok_or("Self outside impl")?;
             }
+            if let Some(t) = self.reg.types.get(&segs[0]) {
+                if t.starts_with("L_") {
+                    segs[0] = t.clone();
+                }
+            }
             let ty = segs[segs.len() - 2].clone();
-            if self.reg.types.contains_key(&ty) || self.reg.types.contains_key(&segs.join("::")) {
+            if self.reg.types.contains_key(&ty) || self.reg.types.contains_key(&segs.join("::")) || self.reg.types.values().any(|x| *x == ty) {
                 let mut args = Vec::new();
                 for a in &c.args {
                     args.push(self.expr(a)?.text);
@@ -1327,6 +1355,46 @@ pub fn lextern(ctx: &mut Ctx, raw: &str, emit: bool) -> Result<(String, Value), 
     Ok((text, json!({"item": format!("lextern {name}"), "rewrites": [{"rule": "L13", "line": 0, "note": format!("`{name}` is an uninterpreted function")}]})))
 }
 
+/// `//@lenum <file> <Name>` — lifted enum L_<Name>: payload types mapped by lift_type
+pub fn lenum(ctx: &mut Ctx, blk: &Block) -> Result<(String, Value), String> {
+    let (file, name) = (blk.args[0].clone(), blk.args[1].clone());
+    ctx.load(&file)?;
+    let en = ctx.files[&file].1
+        .items
+        .iter()
+        .find_map(|it| match it {
+            syn::Item::Enum(s) if s.ident == name => Some(s),
+            _ => None,
+        })
+        .ok_or(format!("lost anchor: enum `{name}` not found"))?;
+    let lname = format!("L_{name}");
+    let mut variants = Vec::new();
+    let mut payloads = Vec::new();
+    for vv in &en.variants {
+        match &vv.fields {
+            syn::Fields::Unit => variants.push(format!("    {},", vv.ident)),
+            syn::Fields::Unnamed(u) => {
+                let mut tys = Vec::new();
+                for f in &u.unnamed {
+                    tys.push(lift_type(&ctx.lift, &f.ty, Some(&name)).map_err(|e| format!("variant {}: {e}", vv.ident))?);
+                }
+                variants.push(format!("    {}({}),", vv.ident, tys.join(", ")));
+                payloads.push((format!("{lname}::{}", vv.ident), format!("({})", tys.join(", "))));
+            }
+            syn::Fields::Named(_) => return Err("lenum: struct variants not supported".into()),
+        }
+    }
+    let src: &str = &ctx.files[&file].0;
+    let offs = Offsets::new(src);
+    let (s0, e0) = offs.range(src, en.span());
+    let rep = json!({"item": format!("enum {name} (lifted)"), "file": file, "src_lines": [line_of(src, s0), line_of(src, e0)], "src_bytes": [s0, e0], "mode": "lift"});
+    ctx.lift.types.insert(name.clone(), lname.clone());
+    for (k, t) in payloads {
+        ctx.lift.types.insert(k, t);
+    }
+    Ok((format!("pub enum {lname} {{\n{}\n}}\n", variants.join("\n")), rep))
+}
+
 pub fn lstruct(ctx: &mut Ctx, blk: &Block) -> Result<(String, Value), String> {
     let (file, name) = (blk.args[0].clone(), blk.args[1].clone());
     ctx.load(&file)?;
@@ -1450,6 +1518,7 @@ pub fn lift_fn(ctx: &mut Ctx, blk: &Block) -> Result<(String, Value), String> {
             hoist: vec![],
             out_param: out_param.clone(),
             observe: observe.clone(),
+            in_value: 0,
         };
         let body = l.stmts_with_cont(&f.block.stmts, None)?;
         let rty = if observe.is_some() { body.ty.clone() } else { ret_ty.clone() };
